@@ -3836,6 +3836,10 @@ iwrc iwkv_cursor_get(
   API_DB_RLOCK(lx->db, rci);
   uint8_t *mm = 0;
   IWFS_FSM *fsm = &lx->db->iwkv->fsm;
+  if (!cur->cn || (cur->cn->flags & SBLK_DB) || (cur->cnpos >= cur->cn->pnum)) { // changed before the lock was taken
+    rc = IWKV_ERROR_NOTFOUND;
+    goto finish;
+  }
   rc = fsm->acquire_mmap(fsm, 0, &mm, 0);
   RCGO(rc, finish);
   if (!cur->cn->kvblk) {
@@ -3879,6 +3883,10 @@ iwrc iwkv_cursor_copy_val(struct iwkv_cursor *cur, void *vbuf, size_t vbufsz, si
   uint8_t *mm = 0, *oval;
   uint32_t ovalsz;
   IWFS_FSM *fsm = &lx->db->iwkv->fsm;
+  if (!cur->cn || (cur->cn->flags & SBLK_DB) || (cur->cnpos >= cur->cn->pnum)) { // changed before the lock was taken
+    rc = IWKV_ERROR_NOTFOUND;
+    goto finish;
+  }
   rc = fsm->acquire_mmap(fsm, 0, &mm, 0);
   RCGO(rc, finish);
   if (!cur->cn->kvblk) {
@@ -3919,6 +3927,10 @@ iwrc iwkv_cursor_is_matched_key(struct iwkv_cursor *cur, const struct iwkv_val *
   uint32_t okeysz;
   iwdb_flags_t dbflg = lx->db->dbflg;
   IWFS_FSM *fsm = &lx->db->iwkv->fsm;
+  if (!cur->cn || (cur->cn->flags & SBLK_DB) || (cur->cnpos >= cur->cn->pnum)) { // changed before the lock was taken
+    rc = IWKV_ERROR_NOTFOUND;
+    goto finish;
+  }
   rc = fsm->acquire_mmap(fsm, 0, &mm, 0);
   RCGO(rc, finish);
   if (!cur->cn->kvblk) {
@@ -3977,6 +3989,10 @@ iwrc iwkv_cursor_copy_key(struct iwkv_cursor *cur, void *kbuf, size_t kbufsz, si
   uint32_t okeysz;
   iwdb_flags_t dbflg = lx->db->dbflg;
   IWFS_FSM *fsm = &lx->db->iwkv->fsm;
+  if (!cur->cn || (cur->cn->flags & SBLK_DB) || (cur->cnpos >= cur->cn->pnum)) { // changed before the lock was taken
+    rc = IWKV_ERROR_NOTFOUND;
+    goto finish;
+  }
   rc = fsm->acquire_mmap(fsm, 0, &mm, 0);
   RCGO(rc, finish);
   if (!cur->cn->kvblk) {
@@ -4040,6 +4056,11 @@ IW_EXPORT iwrc iwkv_cursor_seth(
   }
 
   API_DB_WLOCK(db, rci);
+  sblk = cur->cn;
+  if (!cur->cn || (cur->cn->flags & SBLK_DB) || (cur->cnpos >= cur->cn->pnum)) { // changed before the lock was taken
+    rc = IWKV_ERROR_NOTFOUND;
+    goto finish;
+  }
   if (!sblk->kvblk) {
     uint8_t *mm;
     IWFS_FSM *fsm = &db->iwkv->fsm;
@@ -4133,6 +4154,11 @@ iwrc iwkv_cursor_del(struct iwkv_cursor *cur, iwkv_opflags opflags) {
   }
 
   API_DB_WLOCK(db, rci);
+  sblk = cur->cn;
+  if (!cur->cn || (cur->cn->flags & SBLK_DB) || (cur->cnpos >= cur->cn->pnum)) { // changed before the lock was taken
+    rc = IWKV_ERROR_NOTFOUND;
+    goto finish;
+  }
   if (sblk->pnum == 1) { // sblk will be removed
     struct iwkv_val key = { 0 };
     // Key a key
